@@ -16,8 +16,26 @@ def load_groups():
     for p in sorted(glob.glob(os.path.join(VERIF, 'contracts', 'g_*.py'))):
         name = os.path.basename(p)[:-3]
         m = importlib.import_module(name)
-        mods[m.NAME] = m
+        if hasattr(m, 'SUBGROUPS'):
+            # one lowering run per sub-group (e.g. per tracking mode): jobs name the sub-group they belong to
+            for sub, tu_fn in m.SUBGROUPS.items():
+                mods[sub] = _Sub(m, sub, tu_fn)
+        else:
+            mods[m.NAME] = m
     return mods
+
+
+class _Sub:
+    def __init__(self, mod, name, tu_fn):
+        self.mod, self.NAME, self._tu = mod, name, tu_fn
+        self.ASSUMPTIONS = getattr(mod, 'ASSUMPTIONS', [])
+        self._first = list(mod.SUBGROUPS)[0] == name
+
+    def tu(self):
+        return self._tu()
+
+    def jobs(self, tier):
+        return [j for j in self.mod.jobs(tier) if j.group == self.NAME]
 
 
 def known_findings():
@@ -85,11 +103,19 @@ def check(prop, tier, seed):
     groups = {}
     lower_s = 0.0
     undecided = []
-    for g in sorted(set(j.group for j in jobs)):
+    from concurrent.futures import ThreadPoolExecutor as _TPE
+
+    def _lower(g):
         try:
-            groups[g] = vfcore.lower_group(g, mods[g].tu())
+            return g, vfcore.lower_group(g, mods[g].tu()), None
         except Undecided as ex:
-            undecided.append('group %s: %s' % (g, ex))
+            return g, None, ex
+    with _TPE(max_workers=8) as ex_:
+        for g, val, err in ex_.map(_lower, sorted(set(j.group for j in jobs))):
+            if err is not None:
+                undecided.append('group %s: %s' % (g, err))
+            else:
+                groups[g] = val
     if undecided:
         for u in undecided:
             print('UNDECIDED %s' % u)
